@@ -8,7 +8,7 @@
 (*                                                                         *)
 (* IDs are quad strings (A5Digits); strings are sequences of ASCII codes.  *)
 (***************************************************************************)
-EXTENDS A5Compact, TLC
+EXTENDS A5Compact, A5Hilbert, A5Origins, TLC
 
 IsCanonRes(q, r) == IsQuads(q) /\ Canonical(q) /\ ResOfCanon(q) = r
 
@@ -211,4 +211,77 @@ CompactPairOK(e) ==
   /\ AllCanon(e.a) /\ AllCanon(e.b) /\ e.ok /\ AllCanon(e.out_a) /\ AllCanon(e.out_b)
   /\ LET A == DecSet(e.a)  Bs == DecSet(e.b)
      IN (Antichain(A) /\ Antichain(Bs) /\ CanonSet(A) = CanonSet(Bs)) => SeqSet(e.out_a) = SeqSet(e.out_b)
+---------------------------------------------------------------------------
+(* C17 / C06: the curve inside a quintant *)
+
+Dg(seq) == [x \in 0..(Len(seq) - 1) |-> seq[x + 1]]          \* JSON digit list (lsb first) -> position
+TriRec(t) == [up |-> t[1] = 1, i |-> t[2], j |-> t[3]]
+TriKey(t) == <<1 - t[1], t[2], t[3]>>                          \* the order the harness sorts by
+KeyLess(a, b) == \/ a[1] < b[1]
+                 \/ (a[1] = b[1] /\ a[2] < b[2])
+                 \/ (a[1] = b[1] /\ a[2] = b[2] /\ a[3] < b[3])
+
+\* property level (C17): the centre of the pentagon of position d lies strictly inside a lattice
+\* triangle of the quintant, and locating it returns d
+AnchorEntryOK(x, n) ==
+  /\ Len(x.d) = n /\ Len(x.back) = n
+  /\ InTriSet(TriRec(x.tri), n)
+  /\ x.margin > 0
+  /\ x.back = x.d
+
+\* reference level (C06): the code's anchor / tile / triangle are those of the transcribed v0.6.2 walk
+AnchorPinOK(x, n, o) ==
+  LET a == Anchor(Dg(x.d), n, o)
+      t == Tile(a)
+  IN /\ a.k = x.k /\ a.fl = <<x.f0, x.f1>> /\ a.i = x.ai /\ a.j = x.aj
+     /\ x.tile = <<IF t.rot THEN 1 ELSE 0, IF t.refl THEN 1 ELSE 0, t.i, t.j>>
+     /\ x.resid < 1000000                                        \* congruent copy to 1e-6 lattice units
+     /\ TriOf(t) = TriRec(x.tri)
+     /\ ParityOK(t)
+     /\ TriToS(TriRec(x.tri), n, o) = Dg(x.d)
+
+RECURSIVE KeysIncFrom(_, _, _)
+KeysIncFrom(xs, k, last) ==
+  IF k > Len(xs) THEN TRUE
+  ELSE (last = <<>> \/ KeyLess(last, TriKey(xs[k].tri))) /\ KeysIncFrom(xs, k + 1, TriKey(xs[k].tri))
+
+AnchorsOK(e, lastKey) ==
+  /\ e.n \in 1..29 /\ e.o \in Orientations
+  /\ \A k \in 1..Len(e.entries) : AnchorEntryOK(e.entries[k], e.n)
+  /\ e.sorted => KeysIncFrom(e.entries, 1, lastKey)           \* pairwise distinct triangles
+AnchorsPinned(e) == \A k \in 1..Len(e.entries) : AnchorPinOK(e.entries[k], e.n, e.o)
+AnchorsEndOK(e, count) == count = 4 ^ e.n /\ e.count = count  \* 4^n distinct triangles of TriSet(n): a bijection
+
+---------------------------------------------------------------------------
+(* C12: parent / child tile configurations *)
+
+CfgTuple(c) == <<c[1] = 1, c[2] = 1, c[3] = 1, c[4] = 1, c[5], c[6]>>
+RelConfigOK(e) == \A k \in 1..Len(e.entries) : CfgTuple(e.entries[k].cfg) \in Configs16 /\ e.entries[k].resid < 1000000
+RelFactOK(e) == /\ CfgTuple(e.cfg) \in Configs16
+                /\ e.overlap_ppm > 0              \* child shares interior area with its parent
+                /\ e.dist_ppm <= 800000           \* centre within 0.8 * sqrt(parent area)
+CoverFactOK(e) == e.children = 4 /\ e.cover_ppm > 500000 /\ e.sibling_overlap_ppm < 10
+AllTileTypes == {<<a, b>> : a \in {0, 1}, b \in {0, 1}}
+
+\* sphere-level fact about one parent/child pair of real cells
+ChildGeomOK(e) ==
+  /\ IsQuads(e.parent) /\ IsQuads(e.child) /\ Canonical(e.parent) /\ Canonical(e.child)
+  /\ ResOfCanon(e.child) = ResOfCanon(e.parent) + 1
+  /\ e.is_child                                 \* code: cell_to_parent(child) = parent
+  /\ e.dist_ppm <= 800000
+  /\ e.shares_interior
+
+---------------------------------------------------------------------------
+(* C18 / C06: quintant <-> segment relabelling *)
+
+QuintMapOK(e) ==
+  /\ Len(e.q2s) = 5 /\ Len(e.s2q) = 5
+  /\ \A q \in 0..4 : LET sg == e.q2s[q + 1] IN sg[1] \in 0..4 /\ e.s2q[sg[1] + 1] = <<q, sg[2]>>
+  /\ \A g \in 0..4 : LET qo == e.s2q[g + 1] IN qo[1] \in 0..4 /\ e.q2s[qo[1] + 1] = <<g, qo[2]>>
+  /\ Cardinality({e.q2s[q + 1][1] : q \in 0..4}) = 5
+  /\ \A q \in 0..4 : e.q2s[q + 1][2] \in Orientations
+QuintMapPinOK(e) ==
+  /\ e.first = FirstQ(e.face) /\ e.layout = Layout(e.face)
+  /\ \A q \in 0..4 : e.q2s[q + 1] = QuintantToSegment(q, e.face) /\ e.s2q[q + 1] = SegmentToQuintant(q, e.face)
+  /\ e.first = FirstQuintant[e.face + 1]       \* the ID layout uses the same table
 =============================================================================
